@@ -243,8 +243,10 @@ pub fn build(l: &Layout) -> Built {
     }
     out.extend_from_slice(&l.gap_before_cd);
     let cd_start = out.len() as u64;
-    let order: Vec<usize> = l.cd_order.clone().unwrap_or_else(|| (0..l.entries.len()).collect());
-    for i in order.iter().cloned().filter(|i| *i < l.entries.len()) {
+    // an index beyond the entry list names nothing: it contributes no record and does not count
+    let order: Vec<usize> = l.cd_order.clone().unwrap_or_else(|| (0..l.entries.len()).collect())
+        .into_iter().filter(|i| *i < l.entries.len()).collect();
+    for i in order.iter().cloned() {
         let e = &l.entries[i];
         out.extend_from_slice(&e.cd_gap_before);
         let desc = e.descriptor != Desc::None;
@@ -367,5 +369,25 @@ mod f7_witness {
         eprintln!("UNSATURATED [{}]", h(&build(&l).bytes));
         let a = zip::ZipArchive::new(std::io::Cursor::new(build(&l).bytes)).unwrap();
         assert_eq!(a.len(), 2);
+        // `placedZ64` of C03Order.lean: entry a carries two foreign central records and a forced ZIP64 record
+        // (compressed size, offset) BEHIND the first of them, with the disk-start field; entry b a ZIP64 record
+        // that holds the disk-start field only, behind its single foreign record
+        let mut ea = Entry::stored(b"a", b"a");
+        ea.central_extra = vec![0x55, 0x54, 1, 0, 7, 0xfe, 0xca, 2, 0, 8, 9];
+        ea.zip64_central = (false, true, true);
+        ea.zip64_central_pos = 1;
+        ea.zip64_disk = Some(0);
+        let mut eb = Entry::stored(b"b", b"bb");
+        eb.central_extra = vec![0x0a, 0, 0, 0];
+        eb.zip64_central_pos = 5;
+        eb.zip64_disk = Some(0);
+        let mut l = Layout::new(vec![ea, eb]);
+        l.cd_order = Some(vec![1, 0]);
+        let bytes = build(&l).bytes;
+        eprintln!("PLACED [{}]", h(&bytes));
+        let mut a = zip::ZipArchive::new(std::io::Cursor::new(bytes)).unwrap();
+        assert_eq!(a.len(), 2);
+        let f = a.by_index(1).unwrap();
+        assert_eq!((f.name().to_string(), f.compressed_size(), f.size(), f.header_start()), ("a".to_string(), 1, 1, 0));
     }
 }
